@@ -17,17 +17,34 @@ def _chain(fn):
     if not inner:
         return None, None, None
     f = inner[0]
-    ifs = [s for s in f.body if isinstance(s, ast.If)]
-    if not ifs:
-        return f, [], []
+    from ..model import terminates
     out = []
-    node = ifs[0]
-    while True:
-        out.append((U(node.test), node.body))
-        if len(node.orelse) == 1 and isinstance(node.orelse[0], ast.If):
-            node = node.orelse[0]
-        else:
-            return f, out, node.orelse
+
+    def links(body):
+        """Walk 'if c: <terminating>' links in sequence, elif chains and else bodies that continue the chain; returns the final else part."""
+        body = [s_ for s_ in body if not (isinstance(s_, ast.Expr) and isinstance(s_.value, ast.Constant))]
+        i = 0
+        while i < len(body):
+            st = body[i]
+            if not isinstance(st, ast.If):
+                return body[i:]
+            node = st
+            while True:
+                out.append((U(node.test), node.body))
+                if len(node.orelse) == 1 and isinstance(node.orelse[0], ast.If):
+                    node = node.orelse[0]
+                    continue
+                break
+            if node.orelse:
+                if body[i + 1:]:
+                    return node.orelse + body[i + 1:] if False else node.orelse
+                return links(node.orelse) if isinstance(node.orelse[0], ast.If) else node.orelse
+            if not terminates(node.body):
+                return []
+            i += 1
+        return []
+    els = links(f.body)
+    return f, out, els
 
 
 def _ret_text(body):
